@@ -71,3 +71,15 @@ func init() {
 		Rule:        "bounded-exhaustive: Relu, LeakyRelu(0.01, 0.3, -0.5), Sigmoid, Tanh, Softmax(every dim) on every shape of rank 0..3 (thorough 4) over {1,2,3}; two generic assignments and two rotations of the value classes {-700,-20,-1,0,1e-9,1,20,700}; activation input given as leaf and through 6 value-preserving upstream programs; activation output used as root, through Scale(3), and through a non-uniform weighting; value classes exhaustively over 1..2 (3) element inputs; every <=2-operation upstream program. Oracle: derivative formulas of the statement; at an input of exactly 0 the derivative used by (Leaky)Relu is inferred from the observed input gradient and only required to lie between the one-sided derivatives, then propagated consistently upstream; finite; input's shape. Softmax with normalised width > 1 is recognised as the listed finding broadcast_avg only if it equals the mean-model exactly.",
 		Assumptions: []string{"analytic activation VJPs validated against finite differences (selftest)", "bounded shapes and value classes"}})
 }
+
+func init() {
+	register(&Check{ID: "C16", Fn: checkC16,
+		Rule:        "bounded-exhaustive: batch, feature and output counts in 1..3 (thorough 4)^3 x two non-uniform assignments x input tracked/untracked x upstream all-ones/non-uniform: Forward equals W[o]*sum_d x[b][d]+B[o] and W, B, x receive the derivatives of that formula with the parameters' shapes (parameters are installed through the Weights() pointers of a freshly constructed layer); row independence bit-exactly for every changed row; default initializers under a seeded source (W = the seeded XavierUniform stream, B = 0, both tracked); library and failing custom initializers (wrong length, wrong rank, nil tensor, error, nil initializer: error, no panic); every history of <=4 (5) events over {replace W (2 values), replace B (2 values), Forward} through one set of Weights() pointers. W/B gradients for batch > 1 are the listed finding broadcast_avg only if they equal the mean-model exactly; batch 1 and the input gradient are exact.",
+		Assumptions: []string{"analytic FC VJP validated against finite differences (selftest)", "bounded dimensions"}})
+}
+
+func init() {
+	register(&Check{ID: "C11", Fn: checkC11,
+		Rule:        "deviation-bounded enumeration of training histories on the real components: models FC(D->O) -> {none, Relu, LeakyRelu(0.01|0.3), Sigmoid, Tanh, Softmax(1)} -> {Flatten+MSE, Flatten+BCE, CE} with B,D,O in 1..2 (thorough 1..3), learning rate {nil config, 0.1, 0, -0.05}, two generic initialisations through a custom initializer and one seeded default initialisation, 3 (4) steps; histories with 0 and with exactly 1 deviation from the default step, for every step and weight: reset omitted, ResetGradContext(false), Update twice, Update skipped. Oracle after every step: loss value and every weight equal the model trajectory w <- w - lr*dLoss/dw (analytic composite model), shapes kept, after the reset the hook shows a fresh leaf (no gradient, no edges, not spent); an omitted reset makes the next Update return an error and replace nothing; ResetGradContext(false) freezes that weight (Update errors) while the other follows gradient descent. The trajectory under the mean-model of the listed finding broadcast_avg is accepted only as KNOWN-FINDING and only if every step matches it. Non-trivial: a deviation or batch > 1.",
+		Assumptions: []string{"analytic composite model validated against finite differences (selftest)", "back-propagating twice through the same graph is outside the specified behaviour (C08 precondition a) and not generated", "bounded dimensions, 3-4 steps, at most one deviation per history"}})
+}
